@@ -75,6 +75,9 @@ func (zz *Decompressor) ParseTOC(r io.Reader) (toc *estargz.JTOC, tocDgst digest
 }
 
 func (zz *Decompressor) ParseFooter(p []byte) (blobPayloadSize, tocOffset, tocSize int64, err error) {
+	if len(p) != FooterSize {
+		return 0, 0, 0, fmt.Errorf("invalid length %d cannot be parsed", len(p))
+	}
 	offset := binary.LittleEndian.Uint64(p[0:8])
 	compressedLength := binary.LittleEndian.Uint64(p[8:16])
 	if !bytes.Equal(zstdChunkedFrameMagic, p[32:40]) {
